@@ -231,6 +231,20 @@ func genFn(stream string, seed uint64, n int) []GenCase {
 	r := NewRng(seed)
 	var out []GenCase
 	pool := []string{"a", "b", "c", "d"}
+	// the call-depth limit counts calls IN PROGRESS: many completed calls in one frame, helper calls at
+	// every level of a recursion, and recursion right up to the limit are all fine; one level more is an error
+	for k, script := range []string{
+		"function id(p) { return p; } i = 0; while (i < 10001) { id(i); i++; } return i;",
+		"function id(p) { return p; } function many() { i = 0; while (i < 5001) { id(i); i++; } return i; } a = many(); b = many(); return a + b;",
+		"function inc(v) { return v + 1; } function count(n) { if (n == 0) { return 0; } x = inc(n); return count(n - 1) + 1; } return count(6000);",
+		"function d(n) { if (n == 0) { return 0; } return d(n - 1); } return d(9999);",
+		"function d(n) { if (n == 0) { return 0; } return d(n - 1); } return d(10000);",
+		"function a(n) { if (n == 0) { return 0; } return b(n - 1); } function b(n) { if (n == 0) { return 1; } return a(n - 1); } return a(9999);",
+	} {
+		c := Case{ID: fmt.Sprintf("%s-depth-%d", stream, k), Script: script, Opt: k%2 == 0, Fns: []HostFn{recFn()}, Tags: []string{"call-depth-boundary"},
+			Runs: []Run{{Obj: stdObject(r), Polls: -1}}}
+		out = append(out, GenCase{Case: c, Stream: stream, NonTrivial: true})
+	}
 	for i := 0; i < n; i++ {
 		rr := r.Fork()
 		var sb strings.Builder
@@ -429,6 +443,17 @@ func genHist(stream string, seed uint64, n int) []GenCase {
 		c.AddVar("runs", VInt(0))
 		c.Runs = []Run{{Obj: cnt(3), Polls: 5000}, {Obj: cnt(0), Polls: polls}, {Obj: cnt(0), Polls: polls}, {Obj: cnt(3), Polls: 5000}, {Obj: cnt(9000), Polls: 190000}}
 		out = append(out, GenCase{Case: c, Stream: stream, NonTrivial: true, Pair: "self", Role: "history"})
+	}
+	for k, pend := range []string{"return 100 + boom(1);", "return [1, 2, boom(1)];", "return helper2(7, 8, boom(1));", "x = {\"k\": boom(1)}; return x;", "return 100 + argc();", "return 100 + helper2(boom(1), 2, 3) + 5;"} {
+		for j, after := range []string{"x = print(Name); return x;", "if (printf(\"%s\", Name)) { return 1; } return 2;", "return rec(1) + 1;", "y = rec(2); return [y];"} {
+			flag := func(b bool) HV {
+				return HV{Kind: "struct", Fields: []HField{{"Flag", true, HV{Kind: "bool", B: b}}, {"Name", true, HV{Kind: "str", S: "n"}}}}
+			}
+			c := Case{ID: fmt.Sprintf("%s-pending-%d-%d", stream, k, j), Opt: (k+j)%2 == 0, Fns: []HostFn{recFn()}, Tags: []string{"history", "pending-operands"}, Show: []string{"fresh"},
+				Script: "function boom(a) { return a + nosuch(); } function helper2(a, b, c) { return a + b + c; } function argc(a) { return a; } if (Flag) { " + pend + " } " + after}
+			c.Runs = []Run{{Obj: flag(false), Polls: defaultPolls}, {Obj: flag(true), Polls: defaultPolls}, {Obj: flag(false), Polls: defaultPolls}, {Obj: flag(true), Polls: defaultPolls}, {Obj: flag(false), Polls: defaultPolls}}
+			out = append(out, GenCase{Case: c, Stream: stream, NonTrivial: true, Pair: "self", Role: "history"})
+		}
 	}
 	for i := 0; i < n; i++ {
 		rr := r.Fork()
